@@ -70,6 +70,8 @@ pub fn run(thorough: bool) -> Vec<Part> {
                 ns.push(n as u64);
             }
         }
+        // declared lengths that are not unsigned 32-bit decimals must be rejected as such
+        ns.extend_from_slice(&[1u64 << 32, (1u64 << 32) + 3, (1u64 << 32) + l as u64 % 1000, 9_999_999_999]);
         ns.sort();
         ns.dedup();
         for n in ns {
@@ -82,7 +84,7 @@ pub fn run(thorough: bool) -> Vec<Part> {
         let head = format!("PUT /p HTTP/1.1\r\nContent-Length: {}\r\n\r\n", n).into_bytes();
         let hl = head.len();
         let mut s = head;
-        if (n as usize) <= l && n <= 70_000 {
+        if n <= u32::MAX as u64 && (n as usize) <= l && n <= 70_000 {
             s.extend_from_slice(&c01::body_of(n as usize));
             s.extend_from_slice(&tail);
         } else {
@@ -135,7 +137,7 @@ pub fn run(thorough: bool) -> Vec<Part> {
                 t.evals += 1;
                 t.outcome(obs % 4096);
                 if si == 0 {
-                    t.count(if n as usize > l { "pairs_over_limit" } else { "pairs_within_limit" });
+                    t.count(if n > u32::MAX as u64 { "pairs_not_u32" } else if n as usize > l { "pairs_over_limit" } else { "pairs_within_limit" });
                     t.count(&format!("greedy_delivered_{}", nreq));
                     if (n as i64 - l as i64).abs() <= 1 {
                         t.nontrivial += 1;
